@@ -556,7 +556,7 @@ pub fn mutate(r: &mut Rng, bytes: &[u8], storage: bool) -> Vec<u8> {
         if v.is_empty() {
             break;
         }
-        match r.below(12) {
+        match r.below(15) {
             0 => {
                 // bit flip anywhere
                 let i = r.below(v.len() as u64) as usize;
@@ -648,6 +648,32 @@ pub fn mutate(r: &mut Rng, bytes: &[u8], storage: bool) -> Vec<u8> {
                 }
                 let k = r.below(20) as usize;
                 v.extend(r.bytes(k));
+            }
+            11 | 12 | 13 => {
+                // dialect / damage of the FIRST type-info word of a verbose payload: unused and
+                // reserved bits set (STRU, bits 18..31, TYLE / FIXP where the kind has none), or one
+                // arbitrary bit flipped; the word is in the byte order announced by MSBF
+                if v.len() > base {
+                    let h = v[base];
+                    let off = base + 4 + [2u8, 3, 4].iter().filter(|b| h & (1 << **b) != 0).count() * 4
+                        + if h & 1 != 0 { 10 } else { 0 };
+                    if h & 1 != 0 && v.len() >= off + 4 {
+                        let be = h & 2 != 0;
+                        let mut w = if be {
+                            u32::from_be_bytes([v[off], v[off + 1], v[off + 2], v[off + 3]])
+                        } else {
+                            u32::from_le_bytes([v[off], v[off + 1], v[off + 2], v[off + 3]])
+                        };
+                        match r.below(4) {
+                            0 => w |= 1 << r.range(18, 31),
+                            1 => w |= 1 << 14,
+                            2 => w ^= 1 << r.below(18),
+                            _ => w |= (r.below(1 << 14) as u32) << 18,
+                        }
+                        let nb = if be { w.to_be_bytes() } else { w.to_le_bytes() };
+                        v[off..off + 4].copy_from_slice(&nb);
+                    }
+                }
             }
             _ => {
                 // NUL into an id / string
